@@ -194,6 +194,18 @@ func payloadUnderTag(c *Ctx, rule string) {
 			}
 			v, has := fields[need]
 			c.check(has && v != "nil", rule, key, p.InstrPos(a), need+" is set", fmt.Sprintf("a Value with Tag %s is built without its %s payload: the first dereference under that tag panics", tag, need))
+			// kinds that have methods carry their prototype (a method call on a value built without it
+			// dereferences a nil prototype)
+			if getter := map[string]string{"ValueStr": "lang.getStrPrototype()", "ValueNum": "lang.getNumPrototype()", "ValueObj": "lang.getObjPrototype()"}[tag]; getter != "" {
+				pr, hasP := fields["Proto"]
+				okP := hasP && (pr == getter || strings.HasSuffix(pr, ".Proto"))
+				// the prototype tables themselves are objects without a prototype: they are only ever
+				// reached through protoMember, never handed to a program as a value
+				if tag == "ValueObj" && strings.HasPrefix(shortName(fn), "lang.get") && strings.HasSuffix(shortName(fn), "Prototype") {
+					okP = true
+				}
+				c.check(okP, rule, key+" prototype", p.InstrPos(a), "Proto = "+getter+" (or the source value's)", fmt.Sprintf("a Value with Tag %s is built with Proto = %q: method calls on it (length, upper, split, …) find no prototype", tag, pr))
+			}
 		})
 	}
 	if nl < 25 {
